@@ -112,6 +112,10 @@ class View(object):
         self.slot = arb._exclusive_running_command
         self.stopping = arb._stopping
         self.any_on_demand = any(getattr(w, "on_demand", False) for w in arb.watchers)
+        self._owner = arb.endpoint_owner if getattr(arb, "endpoint_owner_mode", False) else None
+
+    def owner(self):
+        return self._owner
 
 
 def some_name(rng, v, bogus=0.1):
@@ -119,6 +123,29 @@ def some_name(rng, v, bogus=0.1):
         return rng.choice(["nosuch", "", "Z", 5, None])
     n = rng.choice(v.names)
     return case_variant(rng, n) if rng.random() < 0.5 else n
+
+
+OPT_CARRIED = list(sim.OPT_MS + sim.OPT_INT + sim.OPT_BOOL + sim.OPT_TRUTH)      # option names the model's watcher record carries
+OPT_OTHER = ["working_dir", "uid", "gid", "shell", "shell_args", "env", "cmd", "args", "executable", "use_sockets", "copy_env",
+             "stdout_stream_conf", "stderr_stream_conf", "max_age_variance", "close_child_stdin", "close_child_stdout",
+             "close_child_stderr"]                                                # option names of the real watcher only
+NOT_OPTS = ["nosuch", "autostart", "hooks", "name", "NUMPROCESSES", "numprocesses ", "", "n", 5, None, True, 1.5,
+            ["numprocesses"], {"numprocesses": 1}]
+
+
+def some_keys(rng):
+    """the `keys` of a `get` request: option names (carried by the model or not, repeated or not), with an item that is no
+    option name now and then; an empty list; or a value of the wrong type (string, object, number, null)"""
+    r = rng.random()
+    if r < 0.7:
+        keys = [rng.choice(OPT_CARRIED) if rng.random() < 0.75 else rng.choice(OPT_OTHER) for _ in range(rng.choice([1, 1, 2, 3, 5]))]
+        if rng.random() < 0.2:
+            keys.insert(rng.randint(0, len(keys)), rng.choice(NOT_OPTS))
+        return keys
+    if r < 0.78:
+        return []
+    return rng.choice(["numprocesses", "", "x", None, 5, 0, True, False, 1.5, {"numprocesses": 1}, {"nosuch": 1, "cmd": 2}, {},
+                       {"cmd": None, "numprocesses": None}])
 
 
 def some_pid(rng, v, name=None):
@@ -195,7 +222,9 @@ def gen_request(rng, v, rid, profile):
         opts = {}
         for _ in range(rng.choice([1, 1, 2, 3])):
             k = rng.choice(["numprocesses", "numprocesses", "graceful_timeout", "warmup_delay", "stop_signal",
-                            "stop_children", "send_hup", "uid", "bogus_key", "respawn", "max_retry", "cmd", "cmd"])
+                            "stop_children", "send_hup", "uid", "bogus_key", "respawn", "max_retry", "cmd", "cmd"] +
+                           # profiles whose oracles do not read max_age from the configuration also change it at run time
+                           (["max_age", "singleton"] if profile.get("set_extra") else []))
             opts[k] = {"numprocesses": rng.choice([0, 1, 2, 3, 5, -2, "3", 2.5, True]),
                        "graceful_timeout": rng.choice([0, 0.1, 0.3, 0.5, 2, "x"]),
                        "warmup_delay": rng.choice([0, 0.1, 0.3, None]),
@@ -204,7 +233,24 @@ def gen_request(rng, v, rid, profile):
                        "send_hup": rng.choice([True, False, 1]),
                        "uid": rng.choice([0, "root", "nosuchuser-xyz", 987654, 1.5]),
                        "bogus_key": 1, "respawn": rng.choice([True, False, "no"]),
-                       "max_retry": rng.choice([1, 3, "x"]), "cmd": "worker --name %s --wid $(circus.wid)" % "x"}[k]
+                       "max_retry": rng.choice([1, 3, "x"]), "cmd": "worker --name %s --wid $(circus.wid)" % "x",
+                       # max_age: seconds a worker may live (0 = for ever); `singleton` passes validation with any value and
+                       # is then ignored by Watcher.set_opt (as respawn and max_retry are): `options` shows it unchanged
+                       "max_age": rng.choice([0, 0, 1, 2, 5, True, "1", 1.5]),
+                       "singleton": rng.choice([True, False, 1, "yes"])}[k]
+        if rng.random() < profile.get("set_hooks", 0.12):
+            # a hook installed (or replaced) at run time: "dotted.name[,flag]"; by key `hooks.<name>` or through the `hooks` dict
+            hn = rng.choice(HOOK_NAMES + ["before_start", "before_spawn", "after_spawn", "bogus_hook"])
+            outs = "".join(rng.choice("ttfr") for _ in range(rng.choice([1, 1, 2, 3])))
+            val = rng.choice(["harness.simhooks.o_%s" % outs] * 6 + ["harness.simhooks.nosuch", "nosuchmodule.fn", 5, None,
+                                                                     "harness.simhooks.o_"])
+            if isinstance(val, str) and rng.random() < 0.6:
+                val += "," + rng.choice(["true", "true", "True", "1", "on", "yes", " true ", "false", "0", "no", "off", "maybe", "",
+                                         "true,x"])
+            if rng.random() < 0.5:
+                opts["hooks." + hn] = val
+            else:
+                opts["hooks"] = {hn: val} if rng.random() < 0.9 else rng.choice([{}, {hn: val, "after_stop": val}, "x"])
         if "cmd" in opts:
             n = resolve_name(v, props["name"])
             opts["cmd"] = "worker --name %s --wid $(circus.wid)" % (n or "x").replace(" ", "_")
@@ -268,6 +314,14 @@ def gen_request(rng, v, rid, profile):
                         "graceful_timeout": rng.choice([0, 0.1, 0.3]), "warmup_delay": rng.choice([0, 0.1]),
                         "respawn": rng.choice([True, False]), "bogus": 1, "stop_signal": rng.choice([15, 2, "x"])}[k]
             props["options"] = o
+        owner = v.owner() if hasattr(v, "owner") else None
+        if owner is not None:
+            # endpoint-owner mode: the uid of the request has to be the owner (given, missing, another user, a number)
+            r = rng.random()
+            if r < 0.5:
+                props.setdefault("options", {})["uid"] = owner
+            elif r < 0.8:
+                props.setdefault("options", {})["uid"] = rng.choice(["nobody", 0, "Root", ""])
         if rng.random() < 0.1:
             del props["cmd"]
         return base("add")
@@ -276,15 +330,27 @@ def gen_request(rng, v, rid, profile):
             props["waiting"] = True
         return base("quit")
     if pick(p.get("ro", 0.14)):
-        cmd = rng.choice(["status", "list", "numprocesses", "numwatchers", "status", "list", "options", "globaloptions", "listen",
-                          "stats", "stats"])
+        cmd = rng.choice(["status", "list", "numprocesses", "numwatchers", "status", "list", "options", "options", "options",
+                          "get", "get", "get", "globaloptions", "listen", "stats", "stats", "dstats", "listsockets"])
         if cmd in ("status", "list", "numprocesses", "stats") and rng.random() < 0.6:
             props["name"] = some_name(rng, v)
             if cmd == "stats" and rng.random() < 0.4:
                 p_ = some_pid(rng, v, resolve_name(v, props["name"]))
                 props["process"] = p_ if isinstance(p_, int) and not isinstance(p_, bool) else 5
         if cmd == "options":
-            props["name"] = some_name(rng, v, bogus=0.3)
+            props["name"] = some_name(rng, v, bogus=0.25)
+            if rng.random() < 0.06:
+                del props["name"]
+        if cmd == "get":
+            props["name"] = some_name(rng, v, bogus=0.2)
+            props["keys"] = some_keys(rng)
+            if rng.random() < 0.08:
+                del props[rng.choice(["name", "keys"])]
+        if cmd == "globaloptions" and rng.random() < 0.65:
+            props["option"] = rng.choice(list(sim.GLOBAL_OPTS) + ["check_delay", "nosuch", "CHECK_DELAY", "", 0, 5, None,
+                                                                  ["check_delay"], {"a": 1}, True, False, 1.5, 0.0, [], {}])
+        if cmd in ("dstats", "listsockets") and rng.random() < 0.25:
+            props[rng.choice(["name", "keys", "x"])] = some_name(rng, v)      # properties these commands do not look at
         return base(cmd)
     # malformed at the message level
     bad = rng.choice([
@@ -477,6 +543,40 @@ def recipe_singleton_set(rng):
     return sc, pre
 
 
+def recipe_set_hook(rng):
+    """a hook installed, then replaced, at run time (`set <w> hooks.<name> = "dotted.name[,flag]"`), with outcomes that say no
+    or raise, with and without the ignore-failure flag — and then the operations that call it"""
+    first = {"before_spawn": {"out": ["true"], "ignore": rng.random() < 0.5}} if rng.random() < 0.4 else None
+    sc = {"arb": {"warmup_ms": 0}, "behav": [{"term": ["obey", 0], "kill_lat": 0, "spawn_ms": 1}],
+          "watchers": [_w("a", np=rng.choice([1, 2]), respawn=rng.random() < 0.8, **({"hooks": first} if first else {}))]}
+    pre = [["start"]] + [["wake"]] * 4
+    hn = rng.choice(["before_spawn", "before_spawn", "after_spawn", "before_start", "after_start", "before_signal", "after_stop"])
+
+    def val(flag):
+        outs = rng.choice(["r", "r", "rt", "f", "tr", "rrt"])
+        return "harness.simhooks.o_%s%s" % (outs, flag)
+    flags = [rng.choice([",true", ",1", ",on", ", yes "]), rng.choice(["", ",false", ",0", ""])]
+    if rng.random() < 0.3:
+        flags.reverse()
+    for i, fl in enumerate(flags):
+        key = ("hooks." + hn) if rng.random() < 0.6 else "hooks"
+        opts = {key: val(fl)} if key != "hooks" else {"hooks": {hn: val(fl)}}
+        pre += [_req("set", "h%d" % i, name="a", options=opts, waiting=True), ["wake"]]
+        trig = rng.choice(["incr", "restart", "die", "stopstart"])
+        if trig == "incr":
+            pre += [_req("incr", "i%d" % i, name="a", waiting=True), ["wake"], ["wake"]]
+        elif trig == "restart":
+            pre += [_req("restart", "r%d" % i, name="a", waiting=True)] + [["wake"]] * 4
+        elif trig == "die":
+            pre += [lambda v: (["die", v.pids.get("a", [0])[0], 256] if v.pids.get("a") else ["check"]), ["check"], ["wake"], ["wake"]]
+        else:
+            pre += [_req("stop", "s%d" % i, name="a", waiting=True), ["wake"], ["wake"], _req("start", "t%d" % i, name="a", waiting=True),
+                    ["wake"], ["wake"]]
+        if i == 0 and rng.random() < 0.5:
+            break
+    return sc, pre
+
+
 def recipe_pattern_subset(rng):
     """start / stop / restart addressed by a glob pattern that matches only some of the watchers, while a watcher
     outside the pattern has been stopped on purpose (or is running): the request must leave it alone and treat the
@@ -560,6 +660,32 @@ def recipe_sequential_reload_death(rng):
     return sc, pre
 
 
+def recipe_options_observe(rng):
+    """`options` / `get` asked before and after accepted and refused `set` requests, and while a long stop (a worker that
+    ignores the stop signal) holds the exclusive slot: what `set` stored is read back, a refusal leaves it as it was, and
+    the read-only requests are answered at once whatever is in flight"""
+    stubborn = rng.random() < 0.6
+    sc = {"arb": {"warmup_ms": 0}, "behav": [{"term": ["ignore"] if stubborn else ["obey", 150], "kill_lat": 0, "spawn_ms": 1}],
+          "watchers": [_w("a", np=rng.choice([1, 2]), graceful_ms=rng.choice([300, 500])),
+                       _w("B", np=1, priority=-1, singleton=rng.random() < 0.3)]}
+    goods = [{"graceful_timeout": 0.5}, {"warmup_delay": 0.1, "stop_signal": 2}, {"send_hup": True},
+             {"stop_children": True, "numprocesses": 2}, {"respawn": False, "max_retry": 3}, {"graceful_timeout": 0.2, "numprocesses": 1}]
+    bads = [{"numprocesses": "x"}, {"graceful_timeout": 0.3, "warmup_delay": None}, {"stop_signal": 100}, {"bogus": 1},
+            {"uid": "nosuchuser-xyz"}, {"send_hup": 1, "numprocesses": 3}, {"stop_children": "yes"}]
+    good, good2, bad = rng.choice(goods), rng.choice(goods), rng.choice(bads)
+    pre = [["start"]] + [["wake"]] * 4
+    pre += [_req("options", "o0", name=rng.choice(["a", "A"]))]
+    pre += [_req("set", "s1", name="a", options=good), ["wake"], _req("options", "o1", name="a")]
+    pre += [_req("set", "s2", name="a", options=bad), _req("get", "g1", name="a", keys=sorted(set(list(good) + list(bad) + ["numprocesses"])
+                                                                                              & set(OPT_CARRIED)))]
+    pre += [_req(rng.choice(["stop", "stop", "restart"]), "q1", name="a", waiting=True)]
+    pre += [_req("options", "o2", name="a"), _req("set", "s3", name=rng.choice(["a", "B"]), options=good2),
+            _req("get", "g2", name="A", keys=rng.choice([["graceful_timeout", "numprocesses"], ["nosuch"], "numprocesses", None])),
+            ["wake"], _req("options", "o3", name="B"), _req("incr", "i1", name="B"), _req("options", "o4", name="b")]
+    pre += [["wake"]] * rng.choice([1, 3, 6]) + [_req("options", "o5", name="a")]
+    return sc, pre
+
+
 def recipe_unsignalable_stop(rng):
     """an operation that FAILS part-way: one watcher has a worker the daemon is not permitted to signal (another uid: os.kill
     raises EPERM, psutil.AccessDenied, which no except clause of the stop path catches), another one a worker that needs its
@@ -607,8 +733,8 @@ def recipe_unsignalable_stop(rng):
     return sc, pre
 
 
-RECIPES = {"unsignalable_stop": recipe_unsignalable_stop, "sequential_reload_death": recipe_sequential_reload_death, "stopped_worker": recipe_stopped_worker, "children_vanish": recipe_children_vanish, "pattern_subset": recipe_pattern_subset, "signal_veto": recipe_signal_veto, "singleton_set": recipe_singleton_set, "on_demand_stop": recipe_on_demand_stop, "untracked_zombies": recipe_untracked_zombies,
-           "topup_start": recipe_topup_start, "reap_veto": recipe_reap_veto}
+RECIPES = {"unsignalable_stop": recipe_unsignalable_stop, "options_observe": recipe_options_observe, "sequential_reload_death": recipe_sequential_reload_death, "stopped_worker": recipe_stopped_worker, "children_vanish": recipe_children_vanish, "pattern_subset": recipe_pattern_subset, "signal_veto": recipe_signal_veto, "singleton_set": recipe_singleton_set, "on_demand_stop": recipe_on_demand_stop, "untracked_zombies": recipe_untracked_zombies,
+           "topup_start": recipe_topup_start, "reap_veto": recipe_reap_veto, "set_hook": recipe_set_hook}
 
 
 def gen_scenario(rng, nops=None, profile=None):
@@ -624,6 +750,9 @@ def gen_scenario(rng, nops=None, profile=None):
         sc = gen_config(rng, profile)
     # which of the two call sites of start_watchers in Arbiter.start() the scenario goes through (circusd: own loop)
     sc["own_loop"] = rng.random() < 0.5
+    # endpoint-owner mode (an ipc:// control endpoint with endpoint_owner set): `add` must carry the owner's uid
+    if rng.random() < profile.get("owner", 0.1):
+        sc.setdefault("arb", {})["owner"] = "root"
     sc["ops"] = []
     nops = nops or rng.choice([6, 10, 16, 24, 40])
     nops = max(nops, len(scripted) + 4) if scripted else nops
@@ -644,8 +773,7 @@ def gen_scenario(rng, nops=None, profile=None):
             s.k.log = []
             s.k.reasons = []
             s.apply(op)
-            steps.append({"op": op, "lines": list(s.k.log), "snap": s.snapshot() if not s.blocked else "s blocked",
-                          "slept": s.k.slept, "reasons": list(s.k.reasons)})
+            steps.append(s.step_record(op))
             if "o close ctrl" in s.k.log:
                 break                      # the daemon has shut down: nothing after this is meaningful
     finally:
